@@ -63,7 +63,7 @@ class FullOps(TorchCalls):
         cur = t
         for d in dims:
             tag = t.axes[d]
-            if t.note == "finite-test" and fn in ("all", "any"):
+            if t.note.startswith("finite-test") and fn in ("all", "any"):
                 continue
             if tag == "C":
                 if fn == "norm":
@@ -99,6 +99,15 @@ class FullOps(TorchCalls):
             dtype = "Default"
         out = t.but(axes=axes, deg=deg, dtype=dtype, alias=False, span=t.span and "C" in axes, poly=None, idx_of=None,
                     size_of=None, kind="pyint" if t.is_py else t.kind, **fl)
+        if t.note.startswith("finite-test"):
+            # all(isfinite(x)) / any(isnan(x) | isinf(x)) over every axis: the question "is every entry of x finite?" (asked negatively by the latter);
+            # any other reduction of a finiteness predicate (any(isnan(x)) alone, all(~isfinite(x)), ...) is not that question
+            whole = len(dims) == len(t.axes)
+            q = "allfinite?" + "+".join(sorted(t.origin))
+            note = {("finite-test", "all"): q, ("finite-test:non", "any"): q + "|neg"}.get((t.note, fn)) if whole else None
+            out = out.but(note=note or "finite-test:other")
+            if note and t.origin == frozenset(["matrix"]):
+                self.ev("finite_check", node)
         return self.tag(out, "reduce", node, fn=fn, over=[t.axes[d] for d in dims], over_pos=list(dims), in_axes=list(t.axes), in_origin=sorted(t.origin))
 
     def arg_reduce(self, t: TV, fn, dim, node):
@@ -325,6 +334,70 @@ class FullOps(TorchCalls):
             (a, b), (ta, tb) = ins, ops
             if a and b and a[-1] == b[0] and a[-1] not in out and out == a[:-1] + b[1:] and len(set(a)) == len(a) and len(set(b)) == len(b) and not (set(a[:-1]) & set(b[1:])):
                 return self.matmul(ta, tb, node)
+        # several operands of at most two axes each: folded pairwise from the left into products, broadcast products and transposes
+        if any(len(set(i_)) != len(i_) or len(i_) > 2 for i_ in ins) or len(set(out)) != len(out) or len(out) > 2:
+            return None
+        T = lambda t: self.tensor_method(t, "t", [], {}, node, env)
+        U = lambda t, d: self.tensor_method(t, "unsqueeze", [Const(d)], {}, node, env)
+        S = lambda t, d: self.reduce(t, "sum", Const(d), False, node)
+        M = lambda x, y: self.elementwise(x, y, "mul", node)
+
+        def drop(idx, t, keep):
+            for c in list(idx):
+                if c not in keep:
+                    t = S(t, idx.index(c))
+                    idx = idx.replace(c, "")
+            return idx, t
+
+        def pair(ai, ta, bi, tb, keep):
+            ai, ta = drop(ai, ta, keep | set(bi))
+            bi, tb = drop(bi, tb, keep | set(ai))
+            if not isinstance(ta, TV) or not isinstance(tb, TV):
+                return None
+            shared = [c for c in ai if c in bi]
+            contracted = [c for c in shared if c not in keep]
+            if len(contracted) == 1 and len(shared) == 1 and len(ai) <= 2 and len(bi) <= 2:
+                c = contracted[0]
+                if ai[-1] != c:
+                    ai, ta = ai[::-1], T(ta)
+                if bi[0] != c:
+                    bi, tb = bi[::-1], T(tb)
+                return ai[:-1] + bi[1:], self.matmul(ta, tb, node)
+            # element-wise product with broadcasting, then the contracted axes are summed
+            if len(bi) > len(ai):
+                ai, ta, bi, tb = bi, tb, ai, ta
+            if set(bi) <= set(ai):
+                if bi == ai:
+                    prod = M(ta, tb)
+                elif len(bi) == 2 and bi == ai[::-1]:
+                    prod = M(ta, T(tb))
+                elif len(bi) == 1 and bi == ai[-1]:
+                    prod = M(ta, tb)
+                elif len(bi) == 1 and len(ai) == 2 and bi == ai[0]:
+                    prod = M(ta, U(tb, 1))
+                elif len(bi) == 0:
+                    prod = M(ta, tb)
+                else:
+                    return None
+                return drop(ai, prod, keep)
+            if len(ai) == 1 and len(bi) == 1 and ai != bi:
+                return ai + bi, M(U(ta, 1), U(tb, 0))  # outer product
+            return None
+
+        cur_i, cur = ins[0], ops[0]
+        for k_ in range(1, len(ops)):
+            keep = set(out) | set("".join(ins[k_ + 1:]))
+            r_ = pair(cur_i, cur, ins[k_], ops[k_], keep)
+            if r_ is None or not isinstance(r_[1], TV):
+                return None
+            cur_i, cur = r_
+        cur_i, cur = drop(cur_i, cur, set(out))
+        if not isinstance(cur, TV):
+            return None
+        if cur_i == out:
+            return cur
+        if len(out) == 2 and cur_i == out[::-1]:
+            return T(cur)
         return None
 
     # =========================================================================== library functions
@@ -337,9 +410,10 @@ class FullOps(TorchCalls):
             self.ev("inplace", node, alias=bool(o is not None and o.alias), target="out=")
             kwargs = {k: v for k, v in kwargs.items() if k != "out"}
         if fn == "isfinite" or fn in ("isnan", "isinf"):
-            if a0 is not None and a0.alias and a0.origin == frozenset(["matrix"]) and a0.axes == ("R", "C"):
-                self.ev("finite_check", node)
-        elif fn not in LIKE and a0 is not None and a0.note != "finite-test":
+            pass  # the finite_check event is recorded where the element-wise predicate is reduced to the whole question (reduce)
+        elif fn in ("logical_or", "logical_and", "bitwise_or", "bitwise_and", "logical_not", "bitwise_not") and a0 is not None and a0.note.startswith("finite-test"):
+            pass
+        elif fn not in LIKE and a0 is not None and not a0.note.startswith("finite-test"):
             self.note_value_use(a0, node)
             if fn not in CREATORS and fn not in ("matmul", "mm", "mv", "dot", "inner", "bmm", "vdot", "add", "sub", "subtract", "mul", "multiply", "div", "divide", "true_divide", "pow", "power"):
                 self.ev("op", node, op=fn, left=a0.short())
@@ -438,7 +512,15 @@ class FullOps(TorchCalls):
         if fn in ("isfinite", "isnan", "isinf"):
             # finiteness is preserved by row/column permutations, orthogonal maps and zero columns: the test is
             # typed invariant (it is consumed through all()/any())
-            return a0.but(dtype="Bool", deg=F0, alias=False, span=False, poly=None, note="finite-test")
+            whole_input = a0.alias and a0.origin == frozenset(["matrix"]) and a0.axes == ("R", "C")
+            return a0.but(dtype="Bool", deg=F0, alias=False, span=False, poly=None,
+                          note=({"isfinite": "finite-test", "isnan": "finite-test:nan", "isinf": "finite-test:inf"}[fn] if whole_input else "finite-test:other"))
+        if fn in ("logical_or", "bitwise_or", "logical_and", "bitwise_and") and a0 is not None and a0.note.startswith("finite-test") and len(args) > 1:
+            import ast as _ast
+            return self.bitop(args[0], _ast.BitOr() if fn.endswith("or") else _ast.BitAnd(), args[1], node, env)
+        if fn in ("logical_not", "bitwise_not") and a0 is not None and a0.note.startswith("finite-test"):
+            import ast as _ast
+            return self.unary(_ast.Invert(), args[0], node, env)
         # ---- element-wise unary
         if fn in UNARY_FUNCS:
             rule, zero_ok = UNARY_FUNCS[fn]
